@@ -154,6 +154,18 @@ def driver_function(dim, fseed):
     w = rng.uniform(0.5, 3.0, dim)
     c = rng.uniform(-1, 1, 3)
     kink = rng.uniform(0.2, 0.8)
+    if fseed % 3 == 0 and dim >= 2:
+        # every third function is symmetric in its arguments: error indicators of different dimensions tie, so that
+        # single-dimension splitting splits in several dimensions at once
+        w0 = float(w[0])
+
+        def fsym(x):
+            s = w0 * float(sum(x))
+            p = 1.0
+            for t in x:
+                p *= t
+            return math.sin(s) + c[0] * p + 1.5 + c[2] * math.exp(-s * s / 9.0) + c[1] * abs(sum(x) / len(x) - kink)
+        return fsym
 
     def f(x):
         s = float(np.dot(w, x))
